@@ -18,21 +18,21 @@ package compiler
 //@ specfn inclname(Str) Str
 //@ specfn paramname(Str) Str
 //@ specfn tdwf(Int) Bool
-//@ func parser.Type.IncludeName
+//@ func parser.Type.IncludeName(t)
 //@   trusted
 //@   ensures result == inclname(t.Name)
-//@ func parser.Type.ParamName
+//@ func parser.Type.ParamName(t)
 //@   trusted
 //@   ensures result == paramname(t.Name)
 //@ pred tdowner(f, t) = ite(inclname(t.Name) == "", f, f.ParsedIncludes[inclname(t.Name)])
 //@ pred tdhas(f, t) = (inclname(t.Name) == "" || has(f.ParsedIncludes, inclname(t.Name))) && has(tdowner(f, t).typedefIndex, paramname(t.Name))
 //@ define und(f, t) = ite(tdhas(f, t), und(tdowner(f, t), tdowner(f, t).typedefIndex[paramname(t.Name)].Type), t)
 //@ define tdwf(f) = f != nil && forallkey(k, has(f.typedefIndex, k) ==> f.typedefIndex[k] != nil && f.typedefIndex[k].Type != nil) && forallkey(i, has(f.ParsedIncludes, i) ==> tdwf(f.ParsedIncludes[i]))
-//@ func parser.Frugal.UnderlyingType
+//@ func parser.Frugal.UnderlyingType(f, t)
 //@   requires t != nil && tdwf(f)
 //@   decreases tree(t)
 //@   ensures result == und(f, t) && result != nil
-//@ func parser.Frugal.isValidType
+//@ func parser.Frugal.isValidType(f, typ)
 //@   decreases tree(typ)
 // cyc(f, t, E): expanding t the way UnderlyingType and the emitters do (into container element types and
 // through typedefs, an included typedef in its declaring file) meets a typedef of the set E or one that is
@@ -42,84 +42,84 @@ package compiler
 //@ pred tdof(f, t) = tdowner(f, t).typedefIndex[paramname(t.Name)]
 //@ pred setlike(m) = forallref(k, has(m, k) ==> m[k])
 //@ define cyc(f, t, E) = t != nil && (cyc(f, t.KeyType, E) || cyc(f, t.ValueType, E) || (tdhas(f, t) && (member(E, tdof(f, t)) || cyc(tdowner(f, t), tdof(f, t).Type, setadd(E, tdof(f, t))))))
-//@ func parser.Frugal.typedefCycle
+//@ func parser.Frugal.typedefCycle(f, t, expanding)
 //@   requires expanding != nil && setlike(expanding)
 //@   decreases tree(t)
 //@   ensures result == cyc(f, t, old(dom(expanding)))
 //@   ensures dom(expanding) == old(dom(expanding)) && setlike(expanding)
 //@   modifies mapof(expanding)
-//@ func parser.Type.String
+//@ func parser.Type.String(t)
 //@   decreases tree(t)
-//@ func parser.addInclude
+//@ func parser.addInclude(includesSet, includes, t, frugal)
 //@   decreases tree(t)
-//@ func parser.getImports
+//@ func parser.getImports(t)
 //@   decreases tree(t)
-//@ func parser.parseFrugal
+//@ func parser.parseFrugal(filePath, visitedIncludes, cache)
 //@   decreases visited(visitedIncludes)
 
-//@ func compiler.generateFrugalRec
+//@ func compiler.generateFrugalRec(f, g, lang)
 //@   decreases visited(globals.CompiledFiles)
 
-//@ func html.displayType
+//@ func html.displayType(typ, module)
 //@   decreases tree(typ)
-//@ func html.formatValue
+//@ func html.formatValue(value, module)
 //@   decreases tree(value)
-//@ func html.transitiveIncludesRec
+//@ func html.transitiveIncludesRec(module, modules, seen)
 //@   decreases tree(module)
-//@ func json.collectFrugals
+//@ func json.collectFrugals(pf, frugals, used)
 //@   decreases visited(used)
-//@ func json.toRawType
+//@ func json.toRawType(pt)
 //@   decreases tree(pt)
-//@ func json.toType
+//@ func json.toType(pt)
 //@   decreases tree(pt)
 
-//@ func golang.Generator.generateConstantValue
+//@ func golang.Generator.generateConstantValue(g, t, value)
 //@   decreases tree(value)
-//@ func golang.Generator.generateReadFieldRec
+//@ func golang.Generator.generateReadFieldRec(g, field, first)
 //@   decreases tree(field)
-//@ func golang.Generator.generateWriteFieldRec
+//@ func golang.Generator.generateWriteFieldRec(g, field, prefix)
 //@   decreases tree(field)
-//@ func golang.Generator.getGoTypeFromThriftTypePtr
+//@ func golang.Generator.getGoTypeFromThriftTypePtr(g, t, pointer)
 //@   decreases tree(t)
 
-//@ func java.Generator._getJavaType
+//@ func java.Generator._getJavaType(g, t, parametrized)
 //@   decreases tree(t)
-//@ func java.Generator.getJavaTypeFromThriftType
+//@ func java.Generator.getJavaTypeFromThriftType(g, t)
 //@   decreases tree(t)
-//@ func java.Generator.generateConstantValueRec
+//@ func java.Generator.generateConstantValueRec(g, t, value, indent)
 //@   decreases tree(value)
-//@ func java.Generator.generateConstantValueWrapper
+//@ func java.Generator.generateConstantValueWrapper(g, fieldName, t, value, declare, needsStatic, indent)
 //@   decreases tree(value)
-//@ func java.Generator.generateCopyConstructorField
+//@ func java.Generator.generateCopyConstructorField(g, field, otherFieldName, first, indent)
 //@   decreases tree(field)
-//@ func java.Generator.generateReadFieldRec
+//@ func java.Generator.generateReadFieldRec(g, field, first, succinct, containerTypes, indent)
 //@   decreases tree(field)
-//@ func java.Generator.generateWriteFieldRec
+//@ func java.Generator.generateWriteFieldRec(g, field, first, succinct, indent)
 //@   decreases tree(field)
 
-//@ func dartlang.Generator.generateConstantValue
+//@ func dartlang.Generator.generateConstantValue(g, t, value, ind, asConst)
 //@   decreases tree(value)
-//@ func dartlang.Generator.generateReadFieldRec
+//@ func dartlang.Generator.generateReadFieldRec(g, field, kind, first, ind)
 //@   decreases tree(field)
-//@ func dartlang.Generator.generateWriteFieldRec
+//@ func dartlang.Generator.generateWriteFieldRec(g, field, first, ind)
 //@   decreases tree(field)
-//@ func dartlang.Generator.getDartTypeFromThriftType
+//@ func dartlang.Generator.getDartTypeFromThriftType(g, t)
 //@   decreases tree(t)
 
-//@ func python.Generator.generateConstantValue
+//@ func python.Generator.generateConstantValue(g, t, value, ind)
 //@   decreases tree(value)
-//@ func python.Generator.generateReadFieldRec
+//@ func python.Generator.generateReadFieldRec(g, field, first, ind)
 //@   decreases tree(field)
-//@ func python.Generator.generateWriteFieldRec
+//@ func python.Generator.generateWriteFieldRec(g, field, first, ind)
 //@   decreases tree(field)
-//@ func python.Generator.generateSpecArgs
+//@ func python.Generator.generateSpecArgs(g, t)
 //@   decreases tree(t)
-//@ func python.Generator.getPythonTypeName
+//@ func python.Generator.getPythonTypeName(g, t)
 //@   decreases tree(t)
 
 // Validation is what makes TDEF descent well-founded: every alias of the file is checked for a cyclic
 // definition, and a cyclic one is an error.
-//@ func parser.Frugal.validateTypedefs
+//@ func parser.Frugal.validateTypedefs(f)
 //@   ensures lastcallret("parser.Frugal.typedefCycle", 0) ==> result != nil
 //@   modifies *
 
@@ -143,7 +143,7 @@ package compiler
 
 //@ immutable parser.Auditor.logger, parser.Auditor.oldFrugal, parser.Auditor.newFrugal
 
-//@ func parser.Auditor.checkType
+//@ func parser.Auditor.checkType(a, oldType, newType, warn, context)
 //@   requires a.logger != nil && tdwf(a.oldFrugal) && tdwf(a.newFrugal)
 //@   decreases tree(oldType)
 //@   ensures flag(a) == (old(flag(a)) || (!warn && tdiff(a, oldType, newType)))
@@ -152,22 +152,22 @@ package compiler
 // normprefix(s) names the normalised form of a scope prefix (every {variable} replaced by {}); naming
 // assumption, the string manipulation itself is not verified.
 //@ specfn normprefix(Str) Str
-//@ func parser.normalizeScopePrefix
+//@ func parser.normalizeScopePrefix(s)
 //@   trusted
 //@   ensures result == normprefix(s)
-//@ func parser.Auditor.checkScopePrefix
+//@ func parser.Auditor.checkScopePrefix(a, oldPrefix, newPrefix, context)
 //@   requires a.logger != nil && tdwf(a.oldFrugal) && tdwf(a.newFrugal)
 //@   ensures flag(a) == (old(flag(a)) || normprefix(oldPrefix.String) != normprefix(newPrefix.String))
 //@   modifies ghost(errflag, a.logger), alloc
 
 // Checkers that may only warn never set the flag.
-//@ func parser.Auditor.checkNamespaces
+//@ func parser.Auditor.checkNamespaces(a, oldNamespace, newNamespace)
 //@   requires a.logger != nil && tdwf(a.oldFrugal) && tdwf(a.newFrugal)
 //@   ensures flag(a) == old(flag(a))
 //@   modifies ghost(errflag, a.logger), alloc
 //@   loop 0 invariant a == a0 && newMap != nil
 //@   loop 1 invariant a == a0 && flag(a) == old(flag(a))
-//@ func parser.Auditor.checkConstants
+//@ func parser.Auditor.checkConstants(a, oldConstants, newConstants)
 //@   requires a.logger != nil && tdwf(a.oldFrugal) && tdwf(a.newFrugal)
 //@   ensures flag(a) == old(flag(a))
 //@   modifies ghost(errflag, a.logger), alloc
@@ -175,63 +175,63 @@ package compiler
 //@   loop 1 invariant a == a0 && flag(a) == old(flag(a))
 
 // Monotone checkers (the flag is never cleared); what sets it is decided per iteration.
-//@ func parser.Auditor.checkScopes
+//@ func parser.Auditor.checkScopes(a, oldScopes, newScopes)
 //@   requires a.logger != nil && tdwf(a.oldFrugal) && tdwf(a.newFrugal)
 //@   ensures old(flag(a)) ==> flag(a)
 //@   modifies ghost(errflag, a.logger), alloc
 //@   loop 0 invariant a == a0 && newMap != nil
 //@   loop 1 invariant a == a0 && (old(flag(a)) ==> flag(a))
-//@ func parser.Auditor.checkOperations
+//@ func parser.Auditor.checkOperations(a, oldOps, newOps, context)
 //@   requires a.logger != nil && tdwf(a.oldFrugal) && tdwf(a.newFrugal)
 //@   ensures old(flag(a)) ==> flag(a)
 //@   modifies ghost(errflag, a.logger), alloc
 //@   loop 0 invariant a == a0 && newMap != nil
 //@   loop 1 invariant a == a0 && (old(flag(a)) ==> flag(a))
-//@ func parser.Auditor.checkEnums
+//@ func parser.Auditor.checkEnums(a, oldEnums, newEnums)
 //@   requires a.logger != nil && tdwf(a.oldFrugal) && tdwf(a.newFrugal)
 //@   ensures old(flag(a)) ==> flag(a)
 //@   modifies ghost(errflag, a.logger), alloc
 //@   loop 0 invariant a == a0 && newMap != nil
 //@   loop 1 invariant a == a0 && (old(flag(a)) ==> flag(a))
-//@ func parser.Auditor.checkEnumValues
+//@ func parser.Auditor.checkEnumValues(a, oldValues, newValues, context)
 //@   requires a.logger != nil && tdwf(a.oldFrugal) && tdwf(a.newFrugal)
 //@   ensures old(flag(a)) ==> flag(a)
 //@   modifies ghost(errflag, a.logger), alloc
 //@   loop 0 invariant a == a0 && newMap != nil
 //@   loop 1 invariant a == a0 && (old(flag(a)) ==> flag(a))
-//@ func parser.Auditor.checkStructLike
+//@ func parser.Auditor.checkStructLike(a, oldStructs, newStructs)
 //@   requires a.logger != nil && tdwf(a.oldFrugal) && tdwf(a.newFrugal)
 //@   ensures old(flag(a)) ==> flag(a)
 //@   modifies ghost(errflag, a.logger), alloc
 //@   loop 0 invariant a == a0 && newMap != nil
 //@   loop 1 invariant a == a0 && (old(flag(a)) ==> flag(a))
-//@ func parser.Auditor.checkServices
+//@ func parser.Auditor.checkServices(a, oldServices, newServices)
 //@   requires a.logger != nil && tdwf(a.oldFrugal) && tdwf(a.newFrugal)
 //@   ensures old(flag(a)) ==> flag(a)
 //@   modifies ghost(errflag, a.logger), alloc
 //@   loop 0 invariant a == a0 && newMap != nil
 //@   loop 1 invariant a == a0 && (old(flag(a)) ==> flag(a))
-//@ func parser.Auditor.checkServiceMethods
+//@ func parser.Auditor.checkServiceMethods(a, oldMethods, newMethods, context)
 //@   requires a.logger != nil && tdwf(a.oldFrugal) && tdwf(a.newFrugal)
 //@   ensures old(flag(a)) ==> flag(a)
 //@   modifies ghost(errflag, a.logger), alloc
 //@   loop 0 invariant a == a0 && newMap != nil
 //@   loop 1 invariant a == a0 && (old(flag(a)) ==> flag(a))
-//@ func parser.Auditor.checkFields
+//@ func parser.Auditor.checkFields(a, oldFields, newFields, context)
 //@   requires a.logger != nil && tdwf(a.oldFrugal) && tdwf(a.newFrugal)
 //@   ensures old(flag(a)) ==> flag(a)
 //@   modifies ghost(errflag, a.logger), alloc
 //@   loop 0 invariant a == a0 && oldMap != nil && newMap != nil && (old(flag(a)) ==> flag(a))
 //@   loop 1 invariant a == a0 && oldMap != nil && newMap != nil && (old(flag(a)) ==> flag(a))
 
-//@ func parser.makeFieldsMap
+//@ func parser.makeFieldsMap(fields)
 //@   ensures result != nil && fresh(result)
 //@   ensures forall(i, 0, len(fields), has(result, fields[i].ID))
 //@   modifies alloc
 //@   loop 0 invariant fieldsMap != nil && fresh(fieldsMap) && fields == fields0 && 0 - 1 <= rangeindex && rangeindex <= len(fields) && forall(i, 0, rangeindex + 1, has(fieldsMap, fields[i].ID))
 
 // The audit fails exactly when a file does not parse or an error was logged.
-//@ func parser.Auditor.Audit
+//@ func parser.Auditor.Audit(a, oldFile, newFile)
 //@   requires a.logger != nil
 //@   ensures ncalls("parser.ValidationLogger.ErrorsLogged") == 1 ==> (err != nil) == flag(a)
 //@   ensures ncalls("parser.ValidationLogger.ErrorsLogged") == 1 ==> ncalls("parser.ParseFrugal") == 2
@@ -253,12 +253,12 @@ package compiler
 //@   modifies *
 
 // The standard logger: LogError sets the flag, LogWarning leaves it, ErrorsLogged reports it.
-//@ func parser.stdOutLogger.LogError
+//@ func parser.stdOutLogger.LogError(s, errorMessage)
 //@   ensures s.errorsLogged
 //@   modifies s.errorsLogged
-//@ func parser.stdOutLogger.LogWarning
+//@ func parser.stdOutLogger.LogWarning(s, warning)
 //@   ensures s.errorsLogged == old(s.errorsLogged)
-//@ func parser.stdOutLogger.ErrorsLogged
+//@ func parser.stdOutLogger.ErrorsLogged(s)
 //@   ensures result == s.errorsLogged
 
-//@ func parser.FieldModifier.String
+//@ func parser.FieldModifier.String(f)
